@@ -4,19 +4,24 @@ import c01
 META = {
     "engine": "E1+E2+E3+E4",
     "text": "Same interleaving model as C01 (coq/BQ/BQModel.v).  Coq theorems for every usage_ok client program, capacity, "
-            "thread count and schedule: a thread asleep in futex_wait on a slot always has the waiter bit set or a "
-            "wake_all pending for that slot; if the slot's version already equals what the sleeper waits for, a waker "
-            "(single exchange waker or batch store16/fence/load/CAS waker) is still on its way to that slot (no lost "
-            "wakeup); every unfinished thread that is not asleep is enabled; a timed sleeper is released by the clock.  "
-            "Tie: the real class under the deterministic scheduler (pre-emption at every atomic op and futex call, "
-            "virtual time); DSCHED-STUCK on a balanced program = deadlock/lost wakeup; small programs are compared with "
-            "the exhaustively explored model (which also says when blocking for good is legitimate); the timed "
-            "exclusive pop is checked against the virtual clock.",
-    "note": "PARTIAL where named *_partial in coq/Properties_C02.v: global deadlock-freedom of balanced programs is "
-            "proved for the wake protocol (no sleeper is forgotten) and thread-local progress; the step from 'no "
-            "reachable trap' to termination under a fair scheduler is the standard argument and is not mechanised; "
-            "store-buffer (TSO) reorderings of the batch waker are covered by the seq_cst-fence obligation on the "
-            "regenerated site table, not executed.  Trusted base as C01.",
+            "thread count and schedule: a thread asleep in futex_wait on a slot whose version already equals the one it waits "
+            "for has a waker on its way - a pending wake_all, or the USE_FUTEX_WAKE batch publisher of that version before / "
+            "inside its wakeup_waiters pass (c02_no_lost_wakeup: single exchange waker and batch store16 / seq_cst fence / "
+            "load / CAS / wake_all waker, including the waiter registering between the waker's store and its check); that "
+            "waker is itself enabled, so a state with no enabled thread has no ready sleeper (c02_deadlock_not_lost_wakeup); "
+            "a sleeper always has the waiter bit set or a wake_all pending; every unfinished thread that is not asleep is "
+            "enabled; a timed sleeper is released by the clock.  Tie: the real class under the deterministic scheduler "
+            "(pre-emption at every atomic op and futex call, virtual time); DSCHED-STUCK on a balanced program = deadlock / "
+            "lost wakeup; small programs are compared with the exhaustively explored model (which also says when blocking "
+            "for good is legitimate); the timed exclusive pop is checked against the virtual clock.",
+    "note": "PARTIAL: c02_no_deadlock_statement (balanced programs of blocking calls always have an enabled thread) is stated, "
+            "not proved: the wake protocol part is done (no lost wakeup + the waker is enabled), what is missing is the "
+            "client-level ticket accounting (every issued unpublished ticket is held; counters = elements of calls that "
+            "obtained tickets).  The step from 'no reachable deadlock' to termination under a fair scheduler is the standard "
+            "argument and is not mechanised.  c02_no_lost_wakeup assumes slot versions below 2^16 (fewer than 2^15 rounds): "
+            "beyond that the 16-bit word comparison of the code admits the ABA 'waiter pre-empted for exactly 2^15 rounds'.  "
+            "Store-buffer (TSO) reorderings of the batch waker are covered by the seq_cst-fence obligation on the regenerated "
+            "site table, not executed.  Trusted base as C01.",
 }
 
 
